@@ -41,12 +41,18 @@ func permServices(ctx context.Context, cf *commonFlags, rng *PRNG, idx map[strin
 		realChecker, _ := newChecker(ctx, pc)
 		run := &Runner{ctx: ctx, fx: fx, stats: stats, nextID: 100000 * (ci + 1)}
 		epoch := uint64(3)
-		for _, a := range fx.Accounts {
+		for ai, a := range fx.Accounts {
 			for _, client := range pc.Clients {
-				for _, byKey := range []bool{false, true} {
+				for mode := 0; mode < 3; mode++ {
 					ad := Addr{Name: a.Path()}
-					if byKey {
+					target := a // the account that will sign: a key takes precedence over a name
+					switch mode {
+					case 1:
 						ad = Addr{Key: a.Key, KeyID: a.ID, HasKey: true}
+					case 2:
+						// a permitted-looking name together with ANOTHER account's key
+						target = fx.Accounts[(ai+1)%len(fx.Accounts)]
+						ad = Addr{Name: a.Path(), Key: target.Key, KeyID: target.ID, HasKey: true}
 					}
 					epoch += 2
 					ops := []*Op{
@@ -60,10 +66,10 @@ func permServices(ctx context.Context, cf *commonFlags, rng *PRNG, idx map[strin
 						if err != nil {
 							return nil, nil, 0, err
 						}
-						permitted := realChecker.Check(ctx, &checker.Credentials{Client: client}, a.Path(), actions[oi])
+						permitted := realChecker.Check(ctx, &checker.Credentials{Client: client}, target.Path(), actions[oi])
 						if !permitted {
 							if rec.Obs[0].State != core.ResultDenied || rec.Obs[0].SigLen > 0 {
-								monFail = append(monFail, fmt.Sprintf("permissions {%s} do not allow %q on %s for %s, yet the signer answered %s (signature %v) :: %s", pc.text(), actions[oi], a.Path(), client, rec.Obs[0].State, rec.Obs[0].SigLen > 0, describeStep(rec)))
+								monFail = append(monFail, fmt.Sprintf("permissions {%s} do not allow %q on %s for %s, yet the signer answered %s (signature %v) :: %s", pc.text(), actions[oi], target.Path(), client, rec.Obs[0].State, rec.Obs[0].SigLen > 0, describeStep(rec)))
 							}
 							if fmtStore(rec.Pre) != fmtStore(rec.Post) {
 								monFail = append(monFail, fmt.Sprintf("a request refused for lack of permission changed the protection store :: %s", describeStep(rec)))
